@@ -331,8 +331,61 @@ def lincomb(F, R, I_, cfg):
             R.viol("C04.lincomb", I_("basepoint_table:" + name), "analysis of create() failed: %r" % (e,), F.loc(f))
             continue
         check("basepoint_table:" + name, mb[0], [tab, ("scal", "s")], [("B", "s")])
+    # Pippenger (bucket method): bucket indices are symbolic digits.  buckets[|d| - 1] +- P is an update of *every* bucket b by the indicator
+    # [d = +-(b + 1)] times +-P; the routine is analysed once with every digit positive and once with every digit negative (both arms of the
+    # sign match at every position; the bucket updates are additive, so mixed sign patterns add nothing).  Expected: for every point i, position j
+    # and digit value v the coefficient of [d_ij = v] P_i is v 2^(w j) - i.e. sum_j 2^(w j) d_ij P_i for every value the digits can take.
+    for f in fns(r"serial::scalar_mul::pippenger::Pippenger as .*VartimeMultiscalarMul>::optional_multiscalar_mul$", 8) + \
+            fns(r"vector::scalar_mul::pippenger::%s::Pippenger as .*VartimeMultiscalarMul>::optional_multiscalar_mul::__Impl_optional_multiscalar_mul__>::_impl_optional_multiscalar_mul$" % vec, 8):
+        n += 1
+        inst = "pippenger:" + tag(f)
+        bad, nterms, ops = [], 0, 0
+        for sgn in (1, -1):
+            try:
+                ret, ip = LC.run(F, f, [vals([("scal", "s0"), ("scal", "s1")]), vals([some(LC.sym("P0")), some(LC.sym("P1"))])], vec_limit=160, digit_sign=sgn)
+            except Exception as e:
+                bad.append("analysis failed: %r" % (e,))
+                continue
+            somes = [fs[0] for v, fs in ret[1] if v == 1 and fs] if ret is not None and ret[0] == "en" else []
+            t = LC.terms(somes[0]) if len(somes) == 1 and {v for v, _ in ret[1]} == {1} else None
+            rec = {sid: (kind, w) for kind, w, sid in getattr(ip.models, "recodings", [])}
+            if t is None or set(rec) != {"s0", "s1"} or len({w for _, w in rec.values()}) != 1:
+                bad.append("the result is not a combination of the inputs in the abstract domain (digits %s)" % ("positive" if sgn > 0 else "negative"))
+                continue
+            w = rec["s0"][1]
+            ndig = (256 + w - 1) // w + (1 if w == 8 else 0)
+            exp = {}
+            for k in range(2):
+                for j in range(ndig):
+                    for v in range(1, 2 ** (w - 1) + 1):
+                        exp[("P%d" % k, ("ind", ("s%d" % k, "as_radix_2w", w), j, sgn * v))] = sgn * v * 2 ** (w * j)
+            wrong = [key for key in set(exp) | set(t) if exp.get(key) != t.get(key)]
+            nterms += len(exp)
+            ops += ip.models.group_ops
+            if wrong:
+                key = sorted(wrong, key=repr)[0]
+                bad.append("%d terms differ for %s digits, e.g. point %s, position %s, digit value %s: coefficient %s, expected %s" % (
+                    len(wrong), "positive" if sgn > 0 else "negative", key[0], key[1][2] if key[1] else None, key[1][3] if key[1] else None, t.get(key), exp.get(key)))
+        (R.viol if bad else R.ok)("C04.lincomb", I_(inst), bad[0] if bad else
+                                  "for every position j and every digit value v in +-[1, 2^(w-1)]: contribution v 2^(w j) P_i (%d indicator terms, %d group operations, both sign arms)" % (nterms, ops),
+                                  *((F.loc(f),) if bad else ()))
+    # mul_by_pow_2(k) = 2^k P (the body's loop is followed for k = 1, 2, 3, 5, 8; every other routine uses it through this contract)
+    for f in fns(r"edwards::EdwardsPoint::mul_by_pow_2$", 2) + fns(r"vector::(avx2|ifma)::edwards::ExtendedPoint as [\w:]*mul_by_pow_2::__Impl_mul_by_pow_2__>::_impl_mul_by_pow_2$", 2) + \
+            fns(r"edwards::EdwardsPoint::mul_by_cofactor$", 1):
+        ks = (None,) if f["path"].endswith("mul_by_cofactor") else (1, 2, 3, 5, 8)
+        bad = []
+        for k in ks:
+            try:
+                ret, ip = LC.run(F, f, [LC.sym("P")] + ([Iv(k)] if k else []))
+            except Exception as e:
+                bad.append("k=%s: analysis failed: %r" % (k, e))
+                continue
+            if LC.terms(ret) != {("P", None): 2 ** (k or 3)}:
+                bad.append("k=%s: returns %s, expected %d P" % (k, LC.terms(ret), 2 ** (k or 3)))
+        inst = ("mul_by_cofactor:" if ks == (None,) else "mul_by_pow_2:") + tag(f)
+        (R.viol if bad else R.ok)("C04.lincomb", I_(inst), bad[0] if bad else ("= 8 P" if ks == (None,) else "= 2^k P for k = 1, 2, 3, 5, 8 (k doublings)"), *((F.loc(f),) if bad else ()))
     tables = F.has_cfg("feature=precomputed-tables")
-    R.floor("C04.lincomb", I_("routines decided in the linear-combination domain"), n, (13 if tables else 10) if cfg in ("simd", "notables", "ifma") else (9 if tables else 4))
+    R.floor("C04.lincomb", I_("routines decided in the linear-combination domain"), n, (15 if tables else 12) if cfg in ("simd", "notables", "ifma") else (10 if tables else 5))
 
 
 def tag(f):
